@@ -240,13 +240,22 @@ class Names:
         self.marker = 0
 
     def short(self):
-        return self.shorts.pop()
+        if self.shorts:
+            return self.shorts.pop()
+        self.extra = getattr(self, "extra", 0) + 1
+        return chr(0x3b1 + self.extra)          # Greek letters once the pool is used up
 
     def long(self):
-        return self.longs.pop()
+        if self.longs:
+            return self.longs.pop()
+        self.extra = getattr(self, "extra", 0) + 1
+        return "opt%d" % self.extra
 
     def cmdname(self):
-        return self.cmds.pop()
+        if self.cmds:
+            return self.cmds.pop()
+        self.extra = getattr(self, "extra", 0) + 1
+        return "cmd%d" % self.extra
 
     def env(self):
         return self.envs.pop()
@@ -260,9 +269,9 @@ class Names:
         shape = r.choice(["s", "l", "sl", "sl", "l", "sll", "ssl"])
         sh, lo = [], []
         for ch in shape:
-            if ch == "s" and self.shorts:
+            if ch == "s":
                 sh.append(self.short())
-            elif ch == "l" and self.longs:
+            elif ch == "l":
                 lo.append(self.long())
         if not sh and not lo:
             sh.append(self.short())
